@@ -59,7 +59,7 @@ marker bit 0x80 or-ed into the first.  (`s = 0` never occurs: the C would write
 def format256 (v : Int) (s : Nat) : List Nat :=
   match be256 v s with
   | [] => []
-  | b :: r => (b ||| 128) :: r
+  | b :: r => (b % 128 + 128) :: r   -- `*p |= 0x80` on a byte
 
 /-- The `while (s <= maxsize)` loop of ustar/v7tar `format_number`, `n = maxsize + 1 - s`
 iterations left; `none` = fell out of the loop. -/
@@ -214,20 +214,22 @@ def tarAtol256 (field : List Nat) : Int :=
   match field with
   | [] => 0   -- char_cnt = 0 never occurs
   | b0 :: rest =>
-    let negative := b0 &&& 64 ≠ 0
+    -- bytes are < 256, bit tests are written arithmetically: `c & 0x40`, `c |= 0x80`, `c &= 0x7f`
+    let negative : Bool := (b0 / 64) % 2 = 1
     let neg : Nat := if negative then 255 else 0
-    let c : Nat := if negative then b0 ||| 128 else b0 &&& 127
+    let c : Nat := if negative then b0 % 128 + 128 else b0 % 128
     let l0 : Nat := if negative then 18446744073709551615 else 0
     match skipHigh neg c rest (field.length - 8) with
     | none => if negative then I64_MIN else I64_MAX
     | some (c, rest) =>
-      if (c ^^^ neg) &&& 128 ≠ 0 then (if negative then I64_MIN else I64_MAX)
+      -- `(c ^ neg) & 0x80`: the sign bit of the first byte that fits differs from the sign
+      if (decide (c ≥ 128)) ≠ negative then (if negative then I64_MIN else I64_MAX)
       else toI64 (accum256 l0 (c :: rest))
 
 /-- `tar_atol(p, char_cnt)`: base-256 when the first byte has bit 0x80, else octal. -/
 def tarAtol (field : List Nat) : Int :=
   match field with
-  | c :: _ => if c &&& 128 ≠ 0 then tarAtol256 field else tarAtol8 field
+  | c :: _ => if c ≥ 128 then tarAtol256 field else tarAtol8 field   -- `*p & 0x80` on a byte
   | [] => 0
 
 /-- `atol8(p, char_cnt)` of archive_read_support_format_cpio.c: octal digits until a
